@@ -204,7 +204,8 @@ def sigma_filter(filename, region, step_size, box_size, shape, domask,
     # Manually scale the data if BSCALE is not 1.0
     header = fits.getheader(filename)
     if 'BSCALE' in header:
-        data *= header['BSCALE']
+        # not in place: integer data can't hold the scaled values
+        data = data * header['BSCALE']
 
     # force float64 for consistency
     data = data.astype(np.float64)
